@@ -89,6 +89,16 @@ DESCR = {
  "C20-d": ("controlled side compares nomination values with 24-bit serial-number arithmetic", "two values at least 2^23 apart (timestamp/stride generators, jump to 0xFFFFFF)"),
  "C18-a": ("site-local filter narrowed from fec0::/10 to fec0::/16", "an interface address in fec1::…feff:: with an IPv6 network type enabled"),
  "C18-b": ("GatherCandidates no longer supersedes a pending (not yet started) cycle", "a second GatherCandidates executed after the first was accepted but before its goroutine marked the state Gathering"),
+ "C01-e": ("the checking deadline is started only the first time the agent ever enters Checking", "Restart later than disconnected+failed timeout (wall clock) after the first Checking"),
+ "C01-f": ("replacePairRemote no longer copies nominateOnBindingSuccess / deferredNominationValue", "controlled agent knows the peer only as prflx, USE-CANDIDATE arrives before its own check succeeded, the signalled candidate lands before the triggered-check answer"),
+ "C02-e": ("responseSymmetric compares the address family instead of the network type", "UDP and TCP enabled, peer at the same ip:port on both; the signed answer to a UDP check delivered on the TCP local candidate"),
+ "C02-f": ("a request reusing a just-authenticated transaction id skips the integrity check", "valid request with transaction T from X, then within 4 s a forged request from X reusing T with the correct USERNAME"),
+ "C03-e": ("supersession of a prflx remote re-selects the replaced pair when its nominated flag is set (not when it is the selected pair)", "controlling: nomination in flight, then the trickled candidate arrives; controlled: selection moved away by renomination, then the trickle"),
+ "C03-f": ("authentic transaction-matched error responses reach HandleSuccessResponse", "the peer answers a nomination (or the triggered check of a deferred nomination) with 487/400"),
+ "C04-e": ("setSelectedPair(nil) moved into setSelector: a role switch clears the selection", "connected, then an authenticated check from the selected remote claiming our role with the winning tie-breaker, then silence and ticks"),
+ "C04-f": ("Restart from Disconnected does not report Checking", "silence beyond the disconnected timeout, tick (Disconnected), Restart"),
+ "C06-e": ("TCP-active remote candidates are kept when active TCP is disabled", "agent with DisableActiveTCP and a peer signalling a tcptype active candidate"),
+ "C06-f": ("deleteAllCandidates only walks the configured network types", "agent restricted with NetworkTypes and a remote candidate of another type (IPv6/TCP), then Restart or Failed"),
 }
 res = {}
 for ln in open('/verif/.work/confirm_results.txt'):
